@@ -422,6 +422,32 @@ def ff_designs():
     blk(d, "cc", ("c0",), [as_(View(co), add(rd(View(ci)), lit(4, 3), 4))])
     d.family = "ff"
     out.append(d)
+    # presets: registers and wires loaded with literals written as BitsN(v), as the int v and as the
+    # negative int v - 2^w (`s.cnt <<= -1` = all ones); added after seeded change C07-B (the two's
+    # complement mask of an int assigned with <<= dropped: the committed value left [0, 2^n))
+    d = _mk("F%d" % k)
+    k += 1
+    a = d.add_sig((), "a", "in", 4)
+    pre = d.add_sig((), "pre", "in", 2)
+    cnt = d.add_sig((), "cnt", "out", 8)
+    r4 = d.add_sig((), "r4", "out", 4)
+    r1 = d.add_sig((), "r1", "out", 1)
+    snap = d.add_sig((), "snap", "out", 8)
+    o = d.add_sig((), "o", "out", 4)
+    for r_ in (cnt, r4, r1, snap):
+        r_.reg = True
+    sub = lambda x, y, w: {"k": "bin", "op": "sub", "a": x, "b": y, "w": w}  # noqa: E731
+    blk(d, "fcnt", (), [{"k": "if", "c": rd(View(pre, (), (0, 1))), "th": [as_(View(cnt), lit(8, 255))],      # -1
+                         "el": [as_(View(cnt), sub(rd(View(cnt)), lit(8, 1), 8))]}], "ff")
+    blk(d, "fr4", (), [as_(View(r4), rd(View(a))),
+                       {"k": "if", "c": rd(View(pre, (), (1, 2))), "th": [as_(View(r4), lit(4, 13))], "el": []},   # -3
+                       {"k": "if", "c": rd(View(pre, (), (0, 1))), "th": [as_(View(r4), lit(4, 9))], "el": []}], "ff")  # 9
+    blk(d, "fr1", (), [as_(View(r1), lit(1, 1))], "ff")                                                          # -1 on Bits1
+    blk(d, "fsnap", (), [as_(View(snap), rd(View(cnt)))], "ff")          # sees only the pre-edge counter
+    blk(d, "co", (), [{"k": "if", "c": rd(View(r1)), "th": [as_(View(o), lit(4, 10))],                           # -6
+                       "el": [as_(View(o), rd(View(r4)))]}])
+    d.family = "ff"
+    out.append(d)
     return out
 
 
@@ -557,7 +583,7 @@ def loop_designs():
     return out
 
 
-CHANNEL_SHAPES = ("whole", "parts", "rdslice", "fa", "fb", "nested", "arr")
+CHANNEL_SHAPES = ("whole", "parts", "rdslice", "fa", "fb", "nested", "arr", "lst")
 
 
 def _channel(d, st, shape, j):
@@ -581,6 +607,17 @@ def _channel(d, st, shape, j):
             st["N10"] = d.add_sig((), "sn", "wire", "N10")
         v = View(st["N10"], ("p", "a"))
         return [v], rd(v)
+    if shape == "lst":
+        # a struct wire with a LIST field, written as a whole (from a Bits value) and read as a whole (copied to
+        # a second struct wire by the reading block, which then reads the list elements of its copy): the
+        # signal that carries the cycle is struct-typed and the part that changes lives in the list field
+        # (seeded change C11-C: clone() of a bitstruct did not copy the Bits leaves of list fields, so the
+        # snapshot taken around an iteration of the cyclic group aliased the live value)
+        sl = d.add_sig((), "sl%d" % j, "wire", "L6")
+        sm = d.add_sig((), "sm%d" % j, "wire", "L6")
+        st.setdefault("pre", {})[j] = as_(View(sm), rd(View(sl)))
+        rdx = {"k": "cat", "hi": rd(View(sm, ("v[1]",))), "lo": rd(View(sm, ("v[0]",))), "low": 2}
+        return [View(sl)], rdx
     if shape == "arr":
         if "arr" not in st:
             st["arr"] = [d.add_sig((), "arr%d" % i, "wire", 4, arr=("arr", i, 4)) for i in range(4)]
@@ -608,7 +645,8 @@ def loop_channel_designs(quick=False):
         for divergent in (False, True):
             if divergent and ci % 4:
                 continue
-            if quick and (ci % 5) not in (0, 3) and not ({s1, s3} in ({"fa", "fb"}, {"parts", "whole"}, {"parts", "fa"})):
+            if quick and (ci % 5) not in (0, 3) and not ({s1, s3} in ({"fa", "fb"}, {"parts", "whole"}, {"parts", "fa"},
+                                                                          {"lst"}, {"lst", "whole"})):
                 continue
             d = _mk("LC%d" % k)
             k += 1
@@ -618,6 +656,8 @@ def loop_channel_designs(quick=False):
             (t1, r1), (t2, r2), (t3, r3) = _channel(d, st, s1, 1), _channel(d, st, s2, 2), _channel(d, st, s3, 3)
 
             def wr(tvs, e):
+                if len(tvs) == 1 and tvs[0].w > 4:
+                    return [as_(tvs[0], {"k": "zext", "a": e, "w": tvs[0].w})]
                 if len(tvs) == 1:
                     return [as_(tvs[0], e)]
                 # written in parts: low part, then high part of the same expression
@@ -627,8 +667,9 @@ def loop_channel_designs(quick=False):
             src = rd(View(a))
             if divergent:
                 src = {"k": "not", "a": r3, "w": 4}
-            blk(d, "W", (), wr(t1, add(src, lit(4, 1), 4)) + wr(t3, add(r2, lit(4, 2), 4)))
-            blk(d, "R", (), wr(t2, add(r1, lit(4, 5), 4)) + [as_(View(o), add(r3, lit(4, 7), 4))])
+            pre = lambda j: [st["pre"][j]] if j in st.get("pre", {}) else []  # noqa: E731
+            blk(d, "W", (), wr(t1, add(src, lit(4, 1), 4)) + pre(2) + wr(t3, add(r2, lit(4, 2), 4)))
+            blk(d, "R", (), pre(1) + wr(t2, add(r1, lit(4, 5), 4)) + pre(3) + [as_(View(o), add(r3, lit(4, 7), 4))])
             d.shapes = (s1, s2, s3)
             if divergent:
                 d.bitacyclic = False
